@@ -15,7 +15,8 @@
           (id k) computed as types_main.ml does (fuel 100000) *)
 open Front_model
 
-let rec nat_of_int n = if n <= 0 then O else S (nat_of_int (n - 1))
+(* tail-recursive: the bounds are unary naturals of several 10^5 constructors *)
+let nat_of_int n = let rec go acc k = if k <= 0 then acc else go (S acc) (k - 1) in go O n
 let int_of_nat n = let rec go acc = function O -> acc | S m -> go (acc + 1) m in go 0 n
 let ok_code = 1000
 
@@ -50,6 +51,12 @@ let i = int_of_nat
 let big = nat_of_int 100000
 let cfg = ref current_cfg
 
+let bound_int n = n * n * (4 * n + 5) + 4 * n + 4
+let () =
+  for n = 0 to 12 do
+    if int_of_nat (rel_bound (nat_of_int n)) <> bound_int n then failwith "rel_bound formula mismatch"
+  done
+
 let apply_op (p : registry) (op : Sexp.t) : registry * nat =
   match op with
   | Sexp.List (Sexp.Atom "tu" :: n :: fs) -> register_tuple p (name_of n) (List.map tfield fs)
@@ -72,7 +79,10 @@ let run_case parts =
             match q with
             | Sexp.List (Sexp.Atom h :: a) ->
               let id k = nat_atom (List.nth a k) in
-              let b = rel_bound (ntypes !p) in
+              (* B(n) by its closed form (theorem C18_rel_bound_formula; cross-checked against the
+                 extracted rel_bound at start-up): the extracted unary multiplication is not
+                 tail-recursive and overflows the OCaml stack for n around 50 *)
+              let b = nat_of_int (bound_int (i (ntypes !p))) in
               let nb = narrow_bound (ntypes !p) in
               let ncap = nat_of_int (4 * i nb + 64) in
               (match h with
